@@ -67,6 +67,16 @@ def run(tier, v):
                 f.write(json.dumps({"id": rid, "ends": e["ends"], "firsts": e["firsts"], "sidx": e["sidx"], "fps": e["fpl"], "cs": cs, "outs": outs,
                                     "final": [po["final"]] if po["final"] is not None else []}) + "\n")
     r2 = vlib.tlc("TV_C17", pid=PID, workers=8, env={"TRACE": trace}, timeout=3000, heap="12g")
+    if tier == "thorough":
+        def mut(rows):
+            k = next(i for i, r_ in enumerate(rows) if any(r_["outs"]))
+            r_ = json.loads(json.dumps(rows[k]))
+            j = next(i for i, x in enumerate(r_["outs"]) if x)
+            r_["outs"][j] = []
+            if j + 1 < len(r_["outs"]):
+                r_["outs"][-1] = rows[k]["outs"][j]
+            return rows[:20] + [r_], "the chunk at which the fingerprint was returned is changed"
+        v.binding.append(vlib.binding_demo("TV_C17", trace, mut, PID, workers=4, timeout=900, heap="6g"))
     for b in r2.lines.get("BAD", []):
         i, cs = rowinfo[b["id"]]
         e = exp[i]
